@@ -403,7 +403,11 @@ func famCodec(o *Out, r *RNG, thorough bool) {
 	for _, s := range []string{good, "", "Sun, 10 Mar 2024 01:00:00 UTC", "Sun, 10 Mar 2024 1:00:00 GMT", "sun, 10 mar 2024 01:00:00 GMT", "Sun, 30 Feb 2024 01:00:00 GMT", "Sun, 29 Feb 2023 01:00:00 GMT", "Sun, 29 Feb 2024 01:00:00 GMT",
 		"Sun, 10 Mar 2024 24:00:00 GMT", "Sun, 10 Mar 2024 01:60:00 GMT", "Sun, 10 Mar 2024 01:00:60 GMT", "Xxx, 10 Mar 2024 01:00:00 GMT", "Sun, 10 Xxx 2024 01:00:00 GMT", "Sun, 00 Mar 2024 01:00:00 GMT", "Sun, 31 Apr 2024 01:00:00 GMT",
 		"Sun, 10 Mar 2024 01:00:00 GMT ", " " + good, "Sun,10 Mar 2024 01:00:00 GMT", "Sun, 10 Mar 24 01:00:00 GMT", "Sunday, 10-Mar-24 01:00:00 GMT", "Sun Mar 10 01:00:00 2024", "Sun, 10 Mar 2024 01:00:00.5 GMT", "Sun, 10 Mar 2024 01:00:00",
-		"20240310T010000Z", "20240310T010000", "20240310T010000z", "2024-03-10T01:00:00Z", "20240230T010000Z", "20240310T250000Z", "20240310T010000.5Z", "20240310T0100Z", "00000301T000000Z", "99991231T235959Z", "20240310 010000Z", "20240310T010000Z ", "٢٠٢٤0310T010000Z"} {
+		"20240310T010000Z", "20240310T010000", "20240310T010000z", "2024-03-10T01:00:00Z", "20240230T010000Z", "20240310T250000Z", "20240310T010000.5Z", "20240310T0100Z", "00000301T000000Z", "99991231T235959Z", "20240310 010000Z", "20240310T010000Z ", "٢٠٢٤0310T010000Z",
+		// a numeric zone offset where the grammar has the letter Z (RFC 5545 form 2 is UTC only), zone names, doubled or lower-case designators
+		"20240310T010000+0100", "20240310T010000-0800", "20240310T010000+0000", "20240310T010000-0000", "20240310T010000+01:00", "20240310T010000+01", "20240310T010000ZZ",
+		"20240310T010000UTC", "20240310T010000GMT", "20240310T010000 Z", "20240310T010000Z+0100", "20240310t010000Z", "20240310T010000+0100Z",
+		"Sun, 10 Mar 2024 01:00:00 +0000", "Sun, 10 Mar 2024 01:00:00 UTC", "Sun, 10 Mar 2024 01:00:00 +0100", "Sun, 10 Mar 2024 01:00:00 Z", "Sun, 10 Mar 2024 01:00:00 gmt"} {
 		emitDateDec(o, s)
 	}
 	for i := 0; i < n/4; i++ {
